@@ -56,6 +56,8 @@ type c06Universe struct {
 	nRand    int
 	nFam     int
 	maxFill  int
+	nElem    int // path-element family
+	nTarget  int // fragment/dot-segment/authority compositions
 	known    []string
 	seed     int64
 	total    int
@@ -71,7 +73,9 @@ func c06NewUniverse(env vfEnvT) *c06Universe {
 	u.bigFrom = c06CountUpTo(n, 3)
 	u.maxFill = env.Pick(3, 4)
 	u.nFam = c06FamilyCount(u.maxFill)
-	u.total = u.nEnum + len(c06Prefixes)*u.nPref + u.nRand + u.nFam + len(u.known)
+	u.nElem = c06ElemCount(env.Pick(3, 4))
+	u.nTarget = c06TargetCount()
+	u.total = u.nEnum + len(c06Prefixes)*u.nPref + u.nRand + u.nFam + u.nElem + u.nTarget + len(u.known)
 	return u
 }
 
@@ -97,7 +101,15 @@ func (u *c06Universe) At(idx int) (string, bool) {
 	if idx < u.nFam {
 		return c06FamilyAt(idx), u.thorough && idx >= c06FamilyCount(3)
 	}
-	return u.known[idx-u.nFam], false
+	idx -= u.nFam
+	if idx < u.nElem {
+		return c06ElemAt(idx), u.thorough && idx >= c06ElemCount(3)
+	}
+	idx -= u.nElem
+	if idx < u.nTarget {
+		return c06TargetAt(idx), false
+	}
+	return u.known[idx-u.nTarget], false
 }
 
 // c06Bulk runs one job of the bulk: whitelist configuration wi, shard `shard` of `nShards` of the universe (index modulo).
@@ -120,6 +132,8 @@ func c06Bulk(t testing.TB, env vfEnvT, workers, wi, shard, nShards int) *c06Bulk
 		res.Stats["universe_prefixed"] = int64(len(c06Prefixes) * u.nPref)
 		res.Stats["universe_random"] = int64(u.nRand)
 		res.Stats["universe_slash_filler_slash_family"] = int64(u.nFam)
+		res.Stats["universe_path_element_family"] = int64(u.nElem)
+		res.Stats["universe_fragment_climb_authority_family"] = int64(u.nTarget)
 		res.Stats["universe_known_bad_seeds"] = int64(len(u.known))
 	}
 	nWL := len(c06WLs)
@@ -131,6 +145,7 @@ func c06Bulk(t testing.TB, env vfEnvT, workers, wi, shard, nShards int) *c06Bulk
 	// window: a string that is not driven under every configuration meets the 2 (quick) / 3 (thorough) configurations
 	// that follow its hash
 	window := func(h uint64) bool { return (wi-int(h%uint64(nWL))+nWL)%nWL < env.Pick(2, 3) }
+	carryWindow := func(h uint64) bool { return (wi-int(h%uint64(nWL))+nWL)%nWL < env.Pick(1, 3) }
 	t0 := time.Now()
 	// ---- phase 1
 	flags := make([]uint8, u.total) // 1 = kept under this whitelist, 2 = off-origin if echoed verbatim
@@ -160,7 +175,7 @@ func c06Bulk(t testing.TB, env vfEnvT, workers, wi, shard, nShards int) *c06Bulk
 	// "short" strings (<=2 / <=3 tokens) and the repository's list go through every cheap channel under every configuration.
 	// Carried strings: an absolute URL kept under this configuration is driven under it (that is where it matters); a kept
 	// relative path (the whitelist plays no part) and a string that is merely dangerous if echoed are driven under the
-	// configurations of their hash window. Login channels: the shortest strings and the list (under 3 / all configurations)
+	// configurations of their hash window. Login channels: the shortest strings and the list (under 2 / all configurations)
 	// and a hash sample of the carried ones. Big sub-spaces of the thorough tier (4-token, random, ...) are carried at 1/64.
 	type item struct {
 		s     string
@@ -191,7 +206,7 @@ func c06Bulk(t testing.TB, env vfEnvT, workers, wi, shard, nShards int) *c06Bulk
 		}
 		h := c06Hash(s)
 		keptAbs := keptHere && !strings.HasPrefix(s, "/")
-		if !short && !keptAbs && !window(h) {
+		if !short && !keptAbs && !carryWindow(h) {
 			continue
 		}
 		if seen[s] {
@@ -201,9 +216,9 @@ func c06Bulk(t testing.TB, env vfEnvT, workers, wi, shard, nShards int) *c06Bulk
 		it := item{s: s}
 		switch {
 		case i < nLoginShort || isKnown:
-			it.login = (wi-int(h%uint64(nWL))+nWL)%nWL < env.Pick(3, nWL)
+			it.login = (wi-int(h%uint64(nWL))+nWL)%nWL < env.Pick(2, nWL)
 		default:
-			it.login = (h>>20)%uint64(env.Pick(8, 4)) == 0
+			it.login = (h>>20)%uint64(env.Pick(6, 4)) == 0
 		}
 		if it.login {
 			nLogin++
@@ -348,7 +363,7 @@ func TestVerif_C06(t *testing.T) {
 		"and the repository's own open-redirect list, each under all 8 whitelist configurations (none, exact, .dot, *.star, host:port, host:*, IPv6/IPv4 literal, entries with an empty host part); 50k/1M seeded random strings of 5-12 tokens under 2/3 of the 8; " +
 		"phase 2: every short string (<=2/<=3 tokens), the list, and every string phase 1 saw kept or that a browser would resolve off-origin if echoed (big thorough sub-spaces carried at 1/64) " +
 		"through 26 more channels (X-Auth-Request-Redirect on sign_out/start, rd on start->IdP->callback with plain and base64 state, state edited at the callback, X-Forwarded-Proto/Host/Uri in reverse-proxy mode, htpasswd form login, " +
-		"sign-in / error / 403 pages parsed with x/net/html, protected URL and sign_in with skip-provider-button, failed callbacks carrying a forged state in 5 failure modes x plain/base64); short strings under all configurations, carried ones under 2/3 chosen by hash; login channels on a sample; " +
+		"sign-in / error / 403 pages parsed with x/net/html, protected URL and sign_in with skip-provider-button, failed callbacks carrying a forged state in 5 failure modes x plain/base64); short strings under all configurations, carried ones under 1/3 chosen by hash (an absolute URL always under the configuration that keeps it); login channels on a sample; " +
 		"plus a pass of all channels in the race build, the same requests over a real connection (Location as transmitted), and the fidelity clause on 200/3000 safe URIs plus paths sharing the proxy prefix as a string, x 7 routes x proxy prefixes /oauth2, /auth, /a. " +
 		"cell = (channel, whitelist kind, leading class x backslash x whitespace/control x userinfo x port x non-ASCII x escape); non-trivial = the proxy kept the string or a browser would leave the origin if it were echoed verbatim")
 	run.Assume("browsers follow the WHATWG URL Standard (BrowserURL is self-tested against the standard's examples at the start of the run)",
@@ -366,16 +381,28 @@ func TestVerif_C06(t *testing.T) {
 		return
 	}
 
-	bulk := c06RunBulk(run)
+	// the children (bulk) and this process's own phases run side by side: the latter are mostly serial (the proxy's
+	// process-wide lock), the former use the cores
+	var bulk *c06BulkResult
+	var wg sync.WaitGroup
+	wg.Add(1)
+	go func() {
+		defer wg.Done()
+		bulk = c06RunBulk(run)
+	}()
 	c06Fidelity(run) // before the bulk's witnesses: the run keeps a bounded number of witness files
+	c06Concurrency(run)
+	w0 := vfNewWorld(t)
+	defer w0.Close()
+	c06RacePass(run, w0)
+	wg.Wait()
+	if bulk == nil {
+		t.Fatalf("c06: bulk did not complete")
+	}
 	bulk.Acc.flush(run)
 	for k, v := range bulk.Stats {
 		run.Extra("bulk_"+k, v)
 	}
-
-	w0 := vfNewWorld(t)
-	defer w0.Close()
-	c06RacePass(run, w0, bulk.Interesting)
 
 	// a run that did not see the validator keep anything, or no completed logins, has observed too little
 	musts := []string{"logins_completed", "login_starts_checked", "html_pages_parsed", "fidelity_ok", "wire_locations_compared"}
@@ -389,7 +416,7 @@ func TestVerif_C06(t *testing.T) {
 	for _, r := range c06FidelityRoutes {
 		musts = append(musts, "fidelity_ok["+r+"]")
 	}
-	musts = append(musts, "fidelity_prefix_sharing_uris", "fidelity_custom_prefix_uris")
+	musts = append(musts, "fidelity_prefix_sharing_uris", "fidelity_custom_prefix_uris", "ch_conc:so-rd", "ch_conc:form-rd", "ch_conc:so-xarr", "ch_conc:start-rd")
 	for _, ch := range []string{"so-rd", "so-xarr", "form-rd", "page-error", "xf-so", "page-403", "cb-state"} {
 		musts = append(musts, "kept_wire:"+ch)
 	}
@@ -405,7 +432,16 @@ func TestVerif_C06(t *testing.T) {
 
 // c06RacePass: all channels under the race build for the 1-token strings, the prefixes and a sample of the known-bad list,
 // then the wire comparison: the same request through the real http.Server and the raw socket client.
-func c06RacePass(run *vfRun, w0 *vfWorld, interesting []string) {
+func c06RacePass(run *vfRun, w0 *vfWorld) {
+	// the wire pass also takes a hash sample of the whole universe of the bulk (about 200 / 1500 strings)
+	var interesting []string
+	u := c06NewUniverse(run.Env)
+	div := uint64(1 + u.total/run.Env.Pick(200, 1500))
+	for i := 0; i < u.total; i++ {
+		if s, _ := u.At(i); c06Hash(s+"w")%div == 0 {
+			interesting = append(interesting, s)
+		}
+	}
 	var set []string
 	set = append(set, c06Tokens...)
 	set = append(set, c06Prefixes...)
@@ -421,11 +457,7 @@ func c06RacePass(run *vfRun, w0 *vfWorld, interesting []string) {
 	}
 	sort.Strings(interesting)
 	wire := append([]string{}, set...)
-	for i, s := range interesting {
-		if i%run.Env.Pick(8, 1) == 0 {
-			wire = append(wire, s)
-		}
-	}
+	wire = append(wire, interesting...)
 	run.Extra("race_pass_strings", len(set))
 	run.Extra("wire_pass_strings", len(wire))
 	acc := c06NewAcc()
@@ -746,7 +778,13 @@ func c06Replay(run *vfRun) {
 		}
 		defer cx.Close()
 		acc := c06NewAcc()
-		if strings.HasPrefix(ch, "wire:") {
+		if strings.HasPrefix(ch, "conc:") {
+			stats := &c06ConcStats{}
+			for r := 0; r < 400; r++ {
+				cx.c06ConcBurst(acc, stats, r, in, 8)
+			}
+			run.Count("conc_requests_overlapping_another(in-flight gauge > 1 on entry)", stats.overlapping)
+		} else if strings.HasPrefix(ch, "wire:") {
 			cx.wireCompare(acc, in)
 		} else {
 			cx.drive(acc, ch, in, &c06State{})
